@@ -3,6 +3,7 @@ package main
 import (
 	"fmt"
 	"go/token"
+	"go/types"
 	"golang.org/x/tools/go/ssa"
 	"strings"
 )
@@ -90,14 +91,65 @@ func mutators(p *Path) []*Event {
 	return callsOf(p, txnPut, txnDel, curPut, curDel, txnDrop)
 }
 
-func ruleIterUpdateTable(c *Check, rule string) {
+// iterUpdateCallback: the function IterUpdate hands to iterBoth as the per-step
+// callback — a closure of IterUpdate, or (after a refactoring) a method passed
+// as a bound method value.
+func iterUpdateCallback(p *Program) string {
 	name := fnIterUpd + "$callback"
+	if p.Func(name) != nil {
+		return name
+	}
+	fn := p.Func(fnIterUpd)
+	if fn == nil {
+		return name
+	}
+	for _, b := range fn.Blocks {
+		for _, in := range b.Instrs {
+			call, ok := in.(*ssa.Call)
+			if !ok {
+				continue
+			}
+			callee := call.Common().StaticCallee()
+			if callee == nil || QualName(callee) != "lmdbenv/strategy.iterBoth" || len(call.Common().Args) < 4 {
+				continue
+			}
+			v := call.Common().Args[3]
+			if ct, ok := v.(*ssa.ChangeType); ok {
+				v = ct.X
+			}
+			mc, ok := v.(*ssa.MakeClosure)
+			if !ok {
+				continue
+			}
+			f, ok := mc.Fn.(*ssa.Function)
+			if !ok {
+				continue
+			}
+			if strings.HasSuffix(f.Name(), "$bound") {
+				if obj, ok := f.Object().(*types.Func); ok {
+					if m := p.SSA.FuncValue(obj); m != nil {
+						return QualName(m)
+					}
+				}
+			}
+			return QualName(f)
+		}
+	}
+	return name
+}
+
+func ruleIterUpdateTable(c *Check, rule string) {
+	name := iterUpdateCallback(c.P)
 	fn, paths := c.walkFn(rule, name, WalkConfig{})
 	if paths == nil {
 		return
 	}
 	pos := c.P.Pos(fn.Pos())
-	itKey, dbKey, dbVal, itEOF, dbEOF := param(fn, 0), param(fn, 1), param(fn, 2), param(fn, 3), param(fn, 4)
+	po := 0
+	if fn.Signature.Recv() != nil {
+		po = 1 // a method: the receiver comes first
+	}
+	itKey, dbKey, dbVal, itEOF, dbEOF := param(fn, po), param(fn, po+1), param(fn, po+2), param(fn, po+3), param(fn, po+4)
 	appendFlag, _ := c.constValue2("github.com/PowerDNS/lmdb-go/lmdb", "Append")
 	cells := map[string]int{}
 	bad := 0
